@@ -488,7 +488,17 @@ class SelectWith(Statement):
                 IndentBlock(
                     [
                         *[
-                            f"{branch[1].write(scope, self._target.result)} when {branch[0].write(scope, self._arg.result)}{sep}"
+                            (
+                                f"{branch[1].write(scope, self._target.result)} when others;"
+                                if (
+                                    sep == ";"
+                                    and isinstance(
+                                        TypeQualifier.decay(self._arg.result),
+                                        (Bit, BitVector),
+                                    )
+                                )
+                                else f"{branch[1].write(scope, self._target.result)} when {branch[0].write(scope, self._arg.result)}{sep}"
+                            )
                             for branch, sep in zip(self._branches, separators)
                         ],
                         *[
